@@ -413,7 +413,10 @@ def run(ctx):
                                    lambda c: names.time_rtol(c, anchored),
                                    lambda c: names.zero_by_sum(c, anchored),
                                    lambda c: dtype.dtype_narrow(c, anchored),
-                                   lambda c: dtype.dtype_fill(c, anchored)]
+                                   lambda c: dtype.dtype_fill(c, anchored),
+                                   lambda c: None if any(r_['rule'] == 'RESULT-INDEX'
+                                                         for r_ in c.rules_run)
+                                   else sched.result_index(c, anchored, 0)]
     # shared mutable state in the anchored modules makes every for-all-inputs claim depend on the
     # calls made before (two seeds - C06 round 2, C05 round 5 - hid a work buffer in a class
     # constant): PUR-GLOBAL on the anchored modules, unless the property runs it already
